@@ -4,6 +4,7 @@ import (
 	"github.com/tuneinsight/lattigo/v6/core/rlwe"
 	"github.com/tuneinsight/lattigo/v6/ring"
 	"github.com/tuneinsight/lattigo/v6/ring/ringqp"
+	"math"
 )
 
 // Evaluator is a type for evaluating homomorphic operations involving RGSW ciphertexts.
@@ -55,8 +56,10 @@ func (eval Evaluator) ExternalProduct(op0 *rlwe.Ciphertext, op1 *Ciphertext, opO
 
 		params := eval.GetRLWEParameters()
 
-		// If log(Q) * (Q-1)**2 < 2^{64}-1
-		if ringQ := params.RingQ(); levelQ == 0 && levelP == -1 && (ringQ.SubRings[0].Modulus>>29) == 0 {
+		// The fast path accumulates, without any reduction, one product of a residue (< Q) by a lazily
+		// transformed digit (< 6Q) per digit and per row of the RGSW ciphertext: 12 * #digits * Q^2 < 2^64.
+		if ringQ := params.RingQ(); levelQ == 0 && levelP == -1 && (ringQ.SubRings[0].Modulus>>29) == 0 &&
+			fitsIn64Bits(ringQ.SubRings[0].Modulus, op1.Value[0].BaseTwoDecomposition, op1.Value[0].BaseTwoDecompositionVectorSize()[0]) {
 			eval.externalProduct32Bit(op0, op1, c0QP.Q, c1QP.Q)
 			ringQ.AtLevel(0).IMForm(c0QP.Q, opOut.Value[0])
 			ringQ.AtLevel(0).IMForm(c1QP.Q, opOut.Value[1])
@@ -78,6 +81,16 @@ func (eval Evaluator) ExternalProduct(op0 *rlwe.Ciphertext, op1 *Ciphertext, opO
 		eval.BasisExtender.ModDownQPtoQNTT(levelQ, levelP, c1QP.Q, c1QP.P, opOut.Value[1])
 
 	}
+}
+
+// fitsIn64Bits reports whether the unreduced accumulation of externalProduct32Bit stays below 2^64
+// for the modulus q (< 2^29) and the given number of digits of the base-two decomposition.
+func fitsIn64Bits(q uint64, baseTwoDecomposition, nbDigits int) bool {
+	if baseTwoDecomposition == 0 || nbDigits < 1 {
+		return false
+	}
+	/* #nosec G115 -- nbDigits is positive */
+	return uint64(nbDigits) <= math.MaxUint64/(12*q*q)
 }
 
 func (eval Evaluator) externalProduct32Bit(ct0 *rlwe.Ciphertext, rgsw *Ciphertext, c0, c1 ring.Poly) {
